@@ -454,7 +454,54 @@ pub fn gen_case(id: &str, rng: &mut Rng) -> Result<(Vec<u8>, Vec<Inj>, Vec<(u32,
                 let mode = if id == "C18" { Mode::BlockEntry } else { Mode::BlockExit };
                 for b in &st.blockish {
                     if rng.chance(1, 2) {
+                        // C18, 1 in 6: a plain `after` probe with the SAME body (same id) on the same construct, before or after
+                        // the block-entry probe; both report at every entry
+                        let twin = id == "C18" && rng.chance(1, 6);
+                        let twin_first = rng.bool();
+                        if twin && twin_first {
+                            push(&mut plan, fid, *b, Mode::After, Probe::Host, rng);
+                        }
                         push(&mut plan, fid, *b, mode, Probe::Host, rng);
+                        if twin {
+                            let own = plan.last().cloned().unwrap();
+                            if twin_first {
+                                let n = plan.len();
+                                plan[n - 2].uid = own.uid;
+                            } else {
+                                plan.push(Inj { mode: Mode::After, path: if rng.bool() { Path::Iter } else { Path::Modifier }, ..own });
+                            }
+                            continue;
+                        }
+                        let own = plan.last().cloned().unwrap();
+                        match rng.below(10) {
+                            // the probe is withdrawn again: it must never fire
+                            0 => plan.push(Inj {
+                                mode: if id == "C18" { Mode::ClearBlockEntry } else { Mode::ClearBlockExit },
+                                path: if rng.bool() { Path::Iter } else { Path::Modifier },
+                                ..own
+                            }),
+                            // a special probe of another mode on the same construct, withdrawn again in half of the cases: the
+                            // asserted probe must not be touched by that
+                            1 | 2 => {
+                                let other: Vec<Mode> = [Mode::BlockEntry, Mode::BlockExit, Mode::SemAfter]
+                                    .iter()
+                                    .cloned()
+                                    .filter(|m| *m != mode && (*m != Mode::SemAfter || ops[*b].name != "Loop"))
+                                    .collect();
+                                let m2 = *rng.pick(&other);
+                                push(&mut plan, fid, *b, m2, Probe::Host, rng);
+                                if rng.bool() {
+                                    let o2 = plan.last().cloned().unwrap();
+                                    let c = match m2 {
+                                        Mode::BlockEntry => Mode::ClearBlockEntry,
+                                        Mode::BlockExit => Mode::ClearBlockExit,
+                                        _ => Mode::ClearSemAfter,
+                                    };
+                                    plan.push(Inj { mode: c, path: if rng.bool() { Path::Iter } else { Path::Modifier }, ..o2 });
+                                }
+                            }
+                            _ => {}
+                        }
                     }
                 }
                 // 1 function in 3: an ordinary probe issued AFTER the special ones in the same function
@@ -795,8 +842,23 @@ impl Sem {
                     Mode::Before => Some(Mode::ClearBefore),
                     Mode::After => Some(Mode::ClearAfter),
                     Mode::Alt | Mode::EmptyAlt => Some(Mode::ClearAlt),
+                    Mode::BlockEntry => Some(Mode::ClearBlockEntry),
+                    Mode::BlockExit => Some(Mode::ClearBlockExit),
+                    Mode::SemAfter => Some(Mode::ClearSemAfter),
                     _ => None,
                 };
+                // a plain `after` probe with the same body on the same construct (C18) reports at the same moments
+                if inj.mode == Mode::BlockEntry {
+                    let twins = accepted.iter().filter(|p| p.mode == Mode::After && p.uid == inj.uid && p.func == inj.func && p.at == inj.at).count();
+                    if twins > 0 {
+                        out.ob("same-body-after-twin_checked");
+                        let one = exp.clone();
+                        for _ in 0..twins {
+                            exp.extend(one.iter().cloned());
+                        }
+                        exp.sort();
+                    }
+                }
                 if let Some(k) = kind {
                     if plan.iter().skip(pos + 1).any(|p| p.func == inj.func && p.at == inj.at && p.mode == k) {
                         exp.clear();
